@@ -26,6 +26,16 @@ BOUNDARY_CLASSES = ('allsky', 'polar', 'rings')          # already all around th
 WIDE_LENGTHS = [90.0, 120.0, 170.0, 179.9, 180.0, 180.1, 200.0, 270.0, 359.0, 360.0]
 DENSE_SIZES = [2 ** k + d for k in (8, 9, 10) for d in (-1, 0, 1)] + [640, 768, 900, 1100]
 DENSE_QUICK = [640, 1025, 513, 257, 768, 511]
+# where the crowded field lies: 'field' = mid-latitude, away from RA 0 (the cases above); 'polar' = a cap around a pole, so
+# that linked pairs differ by tens of degrees (up to 180) in RA; 'seam' = centred on RA 0/360, so that linked pairs have RAs
+# near 0 and near 360.  Quick tier: the six fields above, then these (size, kind); thorough: every size in every kind.
+DENSE_QUICK_KINDS = [(1040, 'polar'), (1030, 'seam'), (530, 'polar'), (270, 'seam')]
+DENSE_ROUNDS = ['field', 'field', 'field', 'field', 'polar', 'seam', 'polar']
+POLAR_SHAPES = ['over', 'ring', 'over', 'hub']      # what is planted at the pole of a 'polar' field, in turn
+WIDE_DRA = 15.0                      # deg: a linked pair whose RAs differ by more than this (shorter way round) is "wide"
+# positions exactly at a pole, and the nearest things to it
+POLE_RAS = [0.0, 180.0, RA_TOP, 90.0]
+NEAR_POLE = [math.nextafter(90.0, 0.0), 90.0 - 1e-13, 90.0 - 1e-11, 90.0 - 1e-9]
 CS_FACT = [0.5, 2.0, 4.0, 4.0, 4.5, 8.0, 32.0, 64.0]
 LAT_N = 300 + 2300 + 12650           # placements of 2, 3, 4 points on 25 sites
 LAT_SITES = ('corner', 'seam', 'dec89')
@@ -106,7 +116,11 @@ class C05(Check):
             'positions handed over as int64/int32/int16/unsigned, float32, big-endian, strided, reversed-view and read-only '
             'arrays (RA only, Dec only, both), judged by the same oracle (band max(1e-5 rel, 3e-3 deg) when numpy converts the '
             'argument to radians in float32), arguments compared bytewise afterwards.  Class dense: 255-1100 positions (2**k, 2**k +- 1) '
-            'of scrambled filaments in ONE chunk.  Exact boundary RAs (0.0, nextafter(360,0), 60..300) injected into 30 % of the '
+            'of scrambled filaments in ONE chunk, at mid-latitude, around a pole (links with RA differences up to 180 deg: chain over the pole, '
+            'open ring around it, pole with spokes) and centred on RA 0/360 (due E-W pairs across the seam), 270-1100 positions there.  '
+            'Class poles: positions exactly at Dec +90.0 / -90.0 (alone with the others far away, several entries at the pole with '
+            'equal and different RAs, the pole as the only link between spokes at all RAs, inside rings, in a chain straight over '
+            'it, inside a scattered cap, both poles in one list, two-point lists) and the doubles next to 90.  Exact boundary RAs (0.0, nextafter(360,0), 60..300) injected into 30 % of the '
             'all-around classes; class ra360: a seam member written as 360.0 must be grouped as when written 0.0.  Non-trivial: >= 1 group of >= 2 members whose members have '
             'different home chunks; distinct by hash of the materialised case.')
     ASSUMPTIONS = ['separations from a long-double chord formula; a case is undecided only if linking or not linking the '
@@ -116,7 +130,13 @@ class C05(Check):
     REQUIRED_COUNTERS = ('exact_tie_links_decided', 'zero_link_duplicate_links', 'anchored_tie_links', 'tie_cases', 'wide_link_cases', 'wide_link_ge_180_cases', 'wide_link_over_16_in_one_chunk', 'dense_cases', 'dense_cases_above_512_in_one_chunk', 'boundary_ra_points', 'ra360_calls', 'flavour_calls', 'flavour_int_calls', 'flavour_single_precision_calls', 'flavour_layout_calls',
                          'flavour_args_unchanged_checks', 'flavour_multi_member_groups', 'canary_sequences', 'canary_inputs_judged', 'equal_ra_cases', 'equal_dec_cases', 'groups_spanning_chunks', 'undecided_cases', 'band_pairs_harmless', 'replicated_points', 'chunk_fof_calls', 'perm_variants',
                          'chunksize_variants', 'enforced_minimum_chunksize', 'near_threshold_links', 'seam_cases',
-                         'polar_slice_cases', 'multi_member_groups', 'lattice_cases')
+                         'polar_slice_cases', 'multi_member_groups', 'lattice_cases',
+                         'dense_polar_cases', 'dense_seam_cases', 'dense_polar_above_1024_in_one_chunk', 'dense_seam_above_1024_in_one_chunk',
+                         'dense_wide_dra_bridge_links', 'dense_seam_crossing_bridge_links', 'dense_wide_dra_bridges_in_chunk_above_1024',
+                         'dense_seam_crossing_bridges_in_chunk_above_1024',
+                         'pole_cases', 'pole_points_north', 'pole_points_south', 'both_poles_cases', 'pole_duplicate_cases',
+                         'pole_point_in_multi_member_group', 'pole_point_alone', 'pole_point_linked_to_other_positions',
+                         'pole_point_is_only_link_cases', 'next_to_pole_points')
 
     # ------------------------------------------------------------------ wiring
     def setup(self):
@@ -188,7 +208,8 @@ class C05(Check):
             'lattice': 900 if q else LAT_TOTAL,
             'canary_inputs': len(CANARIES),
             'flavours': 400 if q else 8000,
-            'dense': len(DENSE_QUICK) if q else 4 * len(DENSE_SIZES),
+            'dense': len(DENSE_QUICK) + len(DENSE_QUICK_KINDS) if q else len(DENSE_ROUNDS) * len(DENSE_SIZES),
+            'poles': 320 if q else 8000,
             'ra360': 60 if q else 1500,
             'wide_links': 160 if q else 3000,
             'ties': 160 if q else 4000,
@@ -250,8 +271,17 @@ class C05(Check):
 
     def gen_dense(self, rng, nr, i):
         """a crowded field in ONE chunk (explicit chunk size much larger than the field): n = 2**k, 2**k +- 1 (k = 8..10) and
-        a few sizes in between, made of short filaments (links 0.5-0.999 L) and singletons, listed in scrambled order"""
-        n = DENSE_QUICK[i % len(DENSE_QUICK)] if self.tier == 'quick' else DENSE_SIZES[i % len(DENSE_SIZES)]
+        a few sizes in between, made of short filaments (links 0.5-0.999 L) and singletons, listed in scrambled order.
+        Kinds: 'field' (mid-latitude, away from RA 0), 'polar' (a cap around a pole: links with RA differences up to 180 deg),
+        'seam' (centred on RA 0/360)"""
+        if self.tier == 'quick':
+            n, kind = (DENSE_QUICK[i], 'field') if i < len(DENSE_QUICK) else DENSE_QUICK_KINDS[(i - len(DENSE_QUICK)) % len(DENSE_QUICK_KINDS)]
+            turn = (i - len(DENSE_QUICK)) // 2
+        else:
+            n, kind = DENSE_SIZES[i % len(DENSE_SIZES)], DENSE_ROUNDS[(i // len(DENSE_SIZES)) % len(DENSE_ROUNDS)]
+            turn = len(DENSE_SIZES) - 1 - i % len(DENSE_SIZES) + i // len(DENSE_SIZES)      # the largest size first
+        if kind != 'field':
+            return self._gen_dense_at(rng, n, kind, POLAR_SHAPES[turn % len(POLAR_SHAPES)])
         rad = 0.4
         L = 0.35 * rad / math.sqrt(n)
         dec0 = rng.choice([-20.0, 0.0, 35.0])
@@ -276,6 +306,254 @@ class C05(Check):
         case = {'L': L, 'cs': rng.choice([10.0, 30.0]), 'ra': ra, 'dec': dec}
         case['variants'] = [{'p': rng.getrandbits(32), 'cs': case['cs']}] if n <= 700 else []
         return case
+
+    def _gen_dense_at(self, rng, n, kind, shape):
+        """crowded field of n positions in ONE chunk around a pole ('polar') or centred on RA 0/360 ('seam'): the same sparse
+        filaments as the mid-latitude field (about 0.1 neighbours within L per position, so that a link is rarely doubled by
+        another chain) plus a planted structure whose links are the wide ones: a chain straight over the pole, an open ring
+        around it, the pole itself with spokes; due E-W pairs across RA 0.  Planted links are close to L (0.8-0.999999 L)."""
+        rad = 0.4
+        L = 0.35 * rad / math.sqrt(n)
+        ra, dec = [], []
+
+        def near_f():
+            return rng.choice([1.0 - 10.0 ** -rng.choice([2, 3, 4, 5, 6]), rng.uniform(0.8, 0.999),
+                               self._link_factor(rng, 0.0, in_band=False)])
+        if kind == 'polar':
+            sgn = rng.choice([1.0, -1.0])
+            ra0 = rng.choice([0.0, 10.0, rng.uniform(0, 360), rng.uniform(0, 360)])
+            if shape == 'over':
+                # two positions on opposite meridians, the pole between them: RAs 180 deg apart (or 140-220), separation f L
+                f0 = rng.choice([1.0 - 10.0 ** -rng.choice([2, 3, 4, 5, 6]), rng.uniform(0.8, 0.999)])
+                u = rng.uniform(0.15, 0.85)
+                twist = rng.choice([0.0, 0.0, rng.uniform(-40.0, 40.0)])
+                ra += [ra0, R.wrap360(ra0 + 180.0 + twist)]
+                dec += [sgn * (90.0 - u * f0 * L), sgn * (90.0 - (1.0 - u) * f0 * L)]
+                inner = max(u, 1.0 - u) * f0 * L
+            elif shape == 'ring':
+                # open regular polygon around the pole: consecutive members f L apart, RAs 60-120 deg apart
+                k = rng.randint(3, 6)
+                inner = math.degrees(math.asin(min(1.0, math.sin(math.radians(near_f() * L / 2.0)) / math.sin(math.pi / k))))
+                skip = rng.randrange(k) if rng.random() < 0.7 else None
+                for q in range(k):
+                    if q != skip:
+                        ra.append(R.wrap360(ra0 + 360.0 * q / k))
+                        dec.append(sgn * (90.0 - inner))
+            else:
+                # the pole itself with spokes
+                k = rng.randint(2, 5)
+                ra.append(rng.choice(POLE_RAS))
+                dec.append(sgn * 90.0)
+                inner = 0.0
+                for q in range(k):
+                    f = near_f()
+                    inner = max(inner, f * L)
+                    ra.append(R.wrap360(ra0 + 360.0 * q / k + rng.uniform(-10.0, 10.0)))
+                    dec.append(sgn * (90.0 - f * L))
+            # circles of latitude around it, more than L from each other and from the centre piece, each carrying due E-W
+            # pairs (same Dec: separation exactly f L, f close to 1) with gaps of more than L between the pairs: the RA
+            # difference of a pair is ~30 deg on the first circle, ~18 deg on the second, ...
+            pd = inner
+            for _ in range(3):
+                pd += rng.uniform(1.05, 1.25) * L
+                d = sgn * (90.0 - pd)
+                gap = R.ew_width(1.3 * L, d)
+                a = rng.uniform(0, 360)
+                end = a + 360.0
+                while True:
+                    f = rng.choice([1.0 - 10.0 ** -rng.choice([2, 3, 4, 5, 6]), 1.0 - 10.0 ** -rng.choice([2, 3, 4, 5, 6]), near_f()])
+                    w = R.ew_width(f * L, d)
+                    if a + w + gap > end:
+                        break
+                    ra += [R.wrap360(a), R.wrap360(a + w)]
+                    dec += [d, d]
+                    a += w + gap * rng.uniform(1.0, 1.5)
+            clear = pd + 1.5 * L
+
+            def seed_point():
+                while True:
+                    q = rad * math.sqrt(rng.random())
+                    if q > clear:
+                        return rng.uniform(0, 360), sgn * (90.0 - q)
+        else:
+            dec0 = rng.choice([-20.0, 0.0, 35.0])
+            c0 = math.cos(math.radians(dec0))
+            m = rng.randint(8, 20)
+            for q in range(m):
+                # due E-W pairs across RA 0 (same Dec: separation exactly f L), well apart from each other in Dec
+                d = dec0 + (-0.9 + 1.8 * (q + rng.uniform(0.2, 0.8)) / m) * rad
+                w = R.ew_width(near_f() * L, d)
+                u = rng.uniform(0.05, 0.95)
+                ra += [R.wrap360(-u * w), R.wrap360((1.0 - u) * w)]
+                dec += [d, d]
+
+            def seed_point():
+                rr, th = rad * math.sqrt(rng.random()), rng.uniform(0, 2 * math.pi)
+                x = rr * math.cos(th) / c0
+                if rng.random() < 0.1:
+                    x = rng.uniform(-0.5, 0.5) * L / c0            # on the seam itself
+                return R.wrap360(x), dec0 + rr * math.sin(th)
+        while len(ra) < n:
+            a, d = seed_point()
+            ra.append(a)
+            dec.append(d)
+            if rng.random() < 0.75:
+                b = rng.uniform(0, 360)
+                for _ in range(rng.randint(1, 7)):
+                    if len(ra) >= n:
+                        break
+                    b += rng.uniform(-40, 40)
+                    a, d = R.destination(a, d, b, self._link_factor(rng, 0.05, in_band=False) * L)
+                    ra.append(a)
+                    dec.append(d)
+        ra, dec = self._shuffle(rng, ra, dec)
+        case = {'L': L, 'cs': rng.choice([10.0, 30.0]), 'ra': ra, 'dec': dec, 'kind': kind, 'planted': shape if kind == 'polar' else 'ew_pairs'}
+        case['variants'] = [{'p': rng.getrandbits(32), 'cs': case['cs']}] if n <= 700 else []
+        return case
+
+    def gen_poles(self, rng, nr, i):
+        """positions EXACTLY at a pole (Dec = +90.0 / -90.0, whatever the RA written next to it): alone with the other list
+        members far away, several entries at the pole (equal and different RAs), the pole as the only link between
+        neighbours at all RAs (spokes), inside a ring, as a member of a chain straight over it, inside a scattered cap, both
+        poles in one list; also the doubles next to 90 (nextafter, 90 - 1e-13 ...).  Chunk size default, 4-64 L, or large."""
+        kind = rng.choice(['alone', 'alone', 'duplicated', 'duplicated', 'hub', 'hub', 'hub', 'ring', 'chain_over',
+                           'chain_over', 'cap', 'cap', 'both', 'minimal'])
+        sgn = rng.choice([1.0, -1.0])
+        L = log_uniform(rng, 1e-3, 5.0)
+        ra, dec = [], []
+
+        def pole(s):
+            ra.append(rng.choice(POLE_RAS + [rng.uniform(0, 360), rng.uniform(0, 360)]))
+            dec.append(s * 90.0)
+
+        def others_far(s, k):
+            """k positions that have nothing to do with the pole: some Dec range away, with a few friends among themselves"""
+            where = rng.choice(['same_cap', 'mid', 'anywhere'])
+            for _ in range(k):
+                if where == 'same_cap':
+                    d = s * (90.0 - min(L * rng.uniform(1.5, 40.0), 120.0))
+                elif where == 'mid':
+                    d = s * rng.uniform(-30.0, 60.0)
+                else:
+                    d = math.degrees(math.asin(rng.uniform(-1, 1)))
+                if abs(d) > DECLIM or abs(s * 90.0 - d) <= 1.5 * L:
+                    continue
+                ra.append(rng.uniform(0, 360))
+                dec.append(d)
+                if rng.random() < 0.3:
+                    a2, d2 = R.destination(ra[-1], d, rng.uniform(0, 360), self._link_factor(rng, 0.2) * L)
+                    if abs(d2) < DECLIM:
+                        ra.append(a2)
+                        dec.append(d2)
+
+        def spokes(s, k, ra0, even=True):
+            for q in range(k):
+                a = ra0 + 360.0 * q / k if even else rng.uniform(0, 360)
+                ra.append(R.wrap360(a))
+                dec.append(s * (90.0 - self._link_factor(rng, 0.2) * L))
+
+        if kind == 'minimal':
+            pole(sgn)
+            ra.append(rng.choice(POLE_RAS + [rng.uniform(0, 360)]))
+            dec.append(sgn * clipdec(90.0 - rng.choice([self._link_factor(rng, 0.3) * L, L * rng.uniform(0, 3), 0.0, 40.0])))
+            if dec[-1] == dec[0]:
+                dec[-1] = sgn * 90.0 if rng.random() < 0.5 else sgn * rng.choice(NEAR_POLE)
+        elif kind == 'alone':
+            pole(sgn)
+            others_far(sgn, rng.randint(1, 15))
+        elif kind == 'duplicated':
+            for _ in range(rng.randint(2, 5)):
+                pole(sgn)
+            if rng.random() < 0.5:
+                ra.append(ra[0])                       # a bit-identical entry as well
+                dec.append(dec[0])
+            if rng.random() < 0.5:
+                spokes(sgn, rng.randint(1, 6), rng.uniform(0, 360), even=rng.random() < 0.5)
+            others_far(sgn, rng.randint(0, 8))
+        elif kind == 'hub':
+            # the pole is the only thing that joins its neighbours: 2-5 spokes are further apart than L from each other
+            pole(sgn)
+            if rng.random() < 0.25:
+                pole(sgn)
+            k = rng.randint(2, 9)
+            spokes(sgn, k, rng.uniform(0, 360), even=rng.random() < 0.7)
+            for j in range(len(ra)):                    # chains radiating outwards from some spokes
+                if abs(dec[j]) < 90.0 and rng.random() < 0.4:
+                    a, d = ra[j], dec[j]
+                    for _ in range(rng.randint(1, 4)):
+                        d = d - sgn * self._link_factor(rng, 0.1) * L
+                        if abs(d) >= DECLIM:
+                            break
+                        ra.append(a)
+                        dec.append(d)
+            others_far(sgn, rng.randint(0, 6))
+        elif kind == 'ring':
+            pole(sgn)
+            for _ in range(rng.choice([1, 1, 2])):
+                k = rng.randint(4, 40)
+                sx = math.sin(math.radians(min(self._link_factor(rng, 0.2) * L, 170.0) / 2.0)) / math.sin(math.pi / k)
+                if sx >= 0.98:
+                    continue
+                r = math.degrees(math.asin(sx))
+                drop = set(rng.sample(range(k), rng.choice([0, 0, 1, 2])))
+                ra0 = rng.uniform(0, 360)
+                for q in range(k):
+                    if q not in drop:
+                        ra.append(R.wrap360(ra0 + 360.0 * q / k))
+                        dec.append(sgn * clipdec(90.0 - r))
+            others_far(sgn, rng.randint(0, 4))
+        elif kind == 'chain_over':
+            # up one meridian, through the pole itself, down the opposite meridian (or one at an angle to it)
+            ra0 = rng.choice([0.0, rng.uniform(0, 360), RA_TOP])
+            turn = rng.choice([180.0, 180.0, 90.0, rng.uniform(0, 360)])
+            pole(sgn)
+            for side, a in ((0, ra0), (1, R.wrap360(ra0 + turn))):
+                pd = 0.0
+                for _ in range(rng.randint(0 if side else 1, 12)):
+                    pd += self._link_factor(rng) * L
+                    if pd > 85.0:
+                        break
+                    ra.append(a)
+                    dec.append(sgn * (90.0 - pd))
+            others_far(sgn, rng.randint(0, 4))
+        elif kind == 'cap':
+            n = rng.randint(5, 60)
+            radius = L * rng.uniform(1.0, 8.0)
+            for _ in range(n):
+                ra.append(rng.uniform(0, 360))
+                dec.append(sgn * clipdec(90.0 - min(60.0, radius * math.sqrt(rng.random()))))
+            for _ in range(rng.randint(1, 3)):
+                pole(sgn)
+            for _ in range(rng.randint(0, 3)):
+                ra.append(rng.uniform(0, 360))
+                dec.append(sgn * rng.choice(NEAR_POLE))
+        else:
+            # both poles in one list: far apart (never linked below 180 deg), or everything one group from 180 deg on
+            L = rng.choice([L, L, rng.choice([90.0, 179.9, 180.0, 180.1, 200.0]), rng.uniform(30.0, 179.0)])
+            for s in (1.0, -1.0):
+                for _ in range(rng.randint(1, 2)):
+                    pole(s)
+                if L < 30.0:
+                    spokes(s, rng.randint(0, 4), rng.uniform(0, 360))
+            others_far(sgn, rng.randint(0, 10))
+        if rng.random() < 0.25 and kind not in ('minimal',):
+            ra.append(rng.uniform(0, 360))
+            dec.append(sgn * rng.choice(NEAR_POLE))
+        if len(ra) < 2:
+            ra.append(rng.uniform(0, 360))
+            dec.append(sgn * clipdec(90.0 - L * rng.uniform(2.0, 30.0)))
+        ra, dec = self._shuffle(rng, ra, dec)
+        # a small chunk size with a large Dec extent means thousands of slices: keep the grid below ~200 slices
+        extent = max(dec) - min(dec)
+        floor = max(0.05, extent / 150.0)
+        r = rng.random()
+        if r < 0.4:
+            cs = None if max(4.0 * L, 0.1) >= floor else floor
+        elif r < 0.8:
+            cs = max(L * rng.choice(CS_FACT), floor)
+        else:
+            cs = max(4.0 * L, rng.uniform(1.0, 30.0), floor)        # large chunks: the grid is clamped at the pole anyway
+        return {'L': L, 'cs': cs, 'ra': ra, 'dec': dec, 'kind': kind, 'cs_floor': floor}
 
     def gen_ties(self, rng, nr, i):
         """separation == linking length exactly, where that is not a matter of rounding: linking length 0 with repeated
@@ -865,6 +1143,26 @@ class C05(Check):
             out.info['dense_max_chunk_population'] = pop
             if pop > 512:
                 out.count('dense_cases_above_512_in_one_chunk')
+            kind = case.get('kind', 'field')
+            if kind in ('polar', 'seam'):
+                out.count('dense_%s_cases' % kind)
+                if pop > 1024:
+                    out.count('dense_%s_above_1024_in_one_chunk' % kind)
+                with np.errstate(all='ignore'):
+                    wide, wide_br, cross, cross_br = self._wide_links(ra, Sf, L, sure)
+                out.count('dense_wide_dra_links', wide)
+                out.count('dense_wide_dra_bridge_links', wide_br)
+                out.count('dense_seam_crossing_links', cross)
+                out.count('dense_seam_crossing_bridge_links', cross_br)
+                if pop > 1024:
+                    out.count('dense_wide_dra_bridges_in_chunk_above_1024', wide_br)
+                    out.count('dense_seam_crossing_bridges_in_chunk_above_1024', cross_br)
+                out.info.update({'wide_dra_bridge_links': wide_br, 'seam_crossing_bridge_links': cross_br})
+        atpole = np.abs(dec) == 90.0
+        if atpole.any():
+            with np.errstate(all='ignore'):
+                self._pole_counters(out, dec, atpole, Sf, L, sure, sizes)
+        out.count('next_to_pole_points', int(((np.abs(dec) > 90.0 - 1e-8) & ~atpole).sum()))
         out.count('boundary_ra_points', int(np.isin(ra, BOUNDARY_RA).sum()))
         out.nontrivial = span >= 1
         out.info.update({'n': n, 'groups': int(len(sizes)), 'largest_group': int(sizes.max()), 'band_pairs': nband,
@@ -977,6 +1275,51 @@ class C05(Check):
             out.expect(bool(np.all(visited == 1)), 'nextgroup',
                        '%s: following next[] from first[g] does not visit every member exactly once' % tag,
                        visits=visited, nextgroup=nxt)
+
+    def _wide_links(self, ra, Sf, L, labels, limit=60):
+        """counters only: linked pairs (separation below L) whose RAs differ by more than WIDE_DRA the shorter way round,
+        those among them whose raw RA difference exceeds 180 deg (one RA near 0, the other near 360), and how many of each
+        are bridges (no other chain joins the two positions: without this link the group falls apart)"""
+        n = ra.size
+        ii, jj = np.nonzero(np.triu(Sf < L, 1))
+        raw = np.abs(ra[ii] - ra[jj])
+        dra = np.minimum(raw, 360.0 - raw)
+        lab = np.asarray(labels)
+        res = []
+        for sel in (dra > WIDE_DRA, raw > 180.0):
+            pairs = list(zip(ii[sel].tolist(), jj[sel].tolist()))
+            nb = 0
+            for a, b in pairs[:limit]:
+                mem = np.nonzero(lab == lab[a])[0]
+                sub = Sf[np.ix_(mem, mem)] < L
+                pa, pb = int(np.nonzero(mem == a)[0][0]), int(np.nonzero(mem == b)[0][0])
+                sub[pa, pb] = sub[pb, pa] = False
+                comp = R.components(sub)
+                nb += int(comp[pa] != comp[pb])
+            res += [len(pairs), nb]
+        return tuple(res)
+
+    def _pole_counters(self, out, dec, atpole, Sf, L, labels, sizes):
+        """counters only: positions exactly at Dec +-90 and what they do in the reference partition"""
+        lab = np.asarray(labels)
+        north, south = int((dec == 90.0).sum()), int((dec == -90.0).sum())
+        out.count('pole_cases')
+        out.count('pole_points_north', north)
+        out.count('pole_points_south', south)
+        if north and south:
+            out.count('both_poles_cases')
+        if north >= 2 or south >= 2:
+            out.count('pole_duplicate_cases')
+        idx = np.nonzero(atpole)[0]
+        out.count('pole_point_in_multi_member_group', int(sum(sizes[lab[j]] >= 2 for j in idx)))
+        out.count('pole_point_alone', int(sum(sizes[lab[j]] == 1 for j in idx)))
+        rest = np.nonzero(~atpole)[0]
+        out.count('pole_point_linked_to_other_positions', int((Sf[np.ix_(idx, rest)] < L).any(axis=1).sum()) if rest.size else 0)
+        if 2 <= rest.size <= 300:
+            # hub: without the positions at the pole the others form more groups than with them
+            without = len(set(R.components(Sf[np.ix_(rest, rest)] < L)))
+            if without > len(set(lab[rest].tolist())):
+                out.count('pole_point_is_only_link_cases')
 
     def _geometry_counters(self, out, ra, dec, labels):
         c = self._chunk
